@@ -31,6 +31,7 @@ def run(ctx):
     from . import c02 as _c02, c10 as _c10
     ctx.shared(_c02.pair_and_kinds, ctx, am)   # the batch connect of populate_connections is mirrored on both directed links
     ctx.shared(_c10.typecase, ctx, ['xtuml.meta'], 'C10-TYPECASE')   # _is_null decides which referential values count as null
+    ctx.shared(_c10.access, ctx)      # the loader reads key values through Class.__getattr__ (raw stored value first, declared cell otherwise)
     ctx.assume('equality of the hash join with the relational join for all value types (== / hash agreement) is not decided')
     return ('Ordering and once-only rules on ModelLoader.populate; isinstance partition of the statement classes vs the grammar '
             'actions; call-graph funnel of all input routes into ModelLoader.input; sibling agreement of compute_lookup_key / '
@@ -166,6 +167,30 @@ def funnel(ctx):
             st = _self_stores(cg.funcs[q])
             r.check(not st, '%s stores nothing on the loader itself' % q, cg.funcs[q], construct=q, key='no-store',
                     msg='%s stores on the loader: %s' % (q, [src(s[0]) for s in st][:2]))
+    # every channel decodes the text the same way (keys with non-ASCII characters must compare equal whatever the channel)
+    n_dec = 0
+    for q in routes:
+        for node in ast.walk(cg.funcs[q]):
+            if not isinstance(node, ast.Call):
+                continue
+            d = dotted(node.func) or ''
+            enc = None
+            for k in node.keywords:
+                if k.arg == 'encoding':
+                    enc = k.value
+            if d in ('open', 'io.open', 'codecs.open') and enc is None and len(node.args) >= 4:
+                enc = node.args[3]
+            if d.endswith('.decode') and node.args:
+                enc = node.args[0]
+            if d in ('open', 'io.open', 'codecs.open', 'io.TextIOWrapper', 'TextIOWrapper') or d.endswith('.decode'):
+                n_dec += 1
+                good = enc is None or (isinstance(enc, ast.Constant) and isinstance(enc.value, str) and
+                                       enc.value.lower().replace('-', '').replace('_', '') == 'utf8')
+                r.check(good, '%s: `%s` reads text as UTF-8 (explicitly or by default)' % (q, src(node)[:60]), node, construct=q, key='decoding',
+                        msg='%s decodes its input with `%s`, the other input channels with UTF-8: rows whose string keys contain non-ASCII '
+                            'characters no longer join when referring and referred rows arrive through different channels' % (q, src(enc) if enc is not None else ''))
+    r.check(n_dec >= 2, '%d decoding sites on the input routes' % n_dec, cg.funcs[routes[0]], construct=routes[0], key='decoding-sites',
+            msg='only %d text decoding sites found on the input routes' % n_dec)
     # directory / zip member / plain file all delegate per file
     fi = repo.nfunc('bridgepoint.ooaofooa:ModelLoader.filename_input')      # normal form: guards canonical
     calls = [src(n.func) for n in ast.walk(fi) if isinstance(n, ast.Call) and src(n.func).startswith('xtuml.ModelLoader.')]
